@@ -1,4 +1,5 @@
-// C07 harness: what the translation units harness/C07.cpp (conversions, oracle references, dispatch),
+// C07 harness: what the translation units harness/C07.cpp (renderer ops, oracle references, dispatch),
+// harness/C07_parse.cpp (parser ops, libc shims, hexascii, long texts),
 // harness/C07_dprint.cpp (debug printers, tables, constants) and harness/C07_gen.cpp (generator) share.
 // The split exists for the compile time only (bin/check compiles the sources in parallel).
 #ifndef C07_COMMON_H
@@ -73,6 +74,16 @@ struct fnv
     void byte(uint8_t b) { h = (h ^ b) * 1099511628211ull; }
     void le64(uint64_t v) { for (int i = 0; i < 8; i++) byte((uint8_t)(v >> (8 * i))); }
 };
+
+// ------------------------------------------------------------------ harness/C07_parse.cpp
+void run_ato(const std::vector<std::string> &w, out &o);
+void run_lc(const std::vector<std::string> &w, out &o);
+void run_atol(const std::vector<std::string> &w, out &o);
+void run_vt(const std::vector<std::string> &w, out &o);
+void run_hxa(const std::vector<std::string> &w, out &o);
+void run_maxlen(const std::vector<std::string> &w, out &o);
+void run_atorep(const std::vector<std::string> &w, out &o);
+void run_seq(const std::vector<std::string> &w, out &o);
 
 // ------------------------------------------------------------------ harness/C07_dprint.cpp
 void run_dpr(const std::vector<std::string> &w, out &o);
